@@ -20,17 +20,29 @@ package main
 // Schema variant v (0..255): bit0 = dep cascades on delete (else restrict), bit1 = dep nullable,
 // bit2 = the dep constraint is wired before the indexes (changes the constraint order on A and B),
 // bit3 / bit4 = C / C2 declares the mentor fk index, bit5 / bit6 = C / C2 declares the guard fk constraint,
-// bit7 = C2's ChildStoreStrategy is registered before C's.
+// bit7 = C2's ChildStoreStrategy is registered before C's,
+// bits 8-9 = naming of the fk fields owner, boss, dep, mentor, guard (each has a symbol name f, a stored key and a
+// caller-side name the FieldChecker is asked for): 0 all three are f; 1 key = caller name = fId (AddFkSymbolWithKey);
+// 2 key = fId, caller name = f (PersistContext.WithFieldOverrides); 3 key = fId, caller name = fRef.
 //
-// Case line:   h|v <variant> <tx> <tx> ...        (v = verbose: full observation instead of a digest)
+// Case line:   h|v|k|w <variant> <tx> <tx> ...    (v, w = verbose: full observation instead of a digest)
+//
+//	h / v: bbolt opened directly, a fresh MutateContext for every transaction;
+//	k / w: the database is a boltz.Db and ONE MutateContext object is handed to every Db.Update of the history (the
+//	       context — with the "cascading delete in progress" map it carries — outlives rolled-back transactions)
 //
 //	tx  = op,op,...      (one bbolt transaction; the first failing op aborts and rolls it back)
 //	op  = cb:<id> | ca:<id>:<owner>:<boss>:<dep> | ua:<id>:<mask>:<owner>:<boss>:<dep> | da:<id> | db:<id>
 //	    | cc:<id>:<owner>:<boss>:<dep>:<tag>[:<mentor>:<guard>] | uc:<id>:<mask>:<owner>:<boss>:<dep>:<tag>[:<mentor>:<guard>]
 //	    | dc:<id>   (through child store C)      c2: / u2: / d2: the same through C2
+//	    | xa:<id>:<v> | xb:<id>:<v>   A / B.DeleteById(id) while an EntityConstraint on store A refuses (ProcessPreCommit
+//	      error) the delete of A entity v: a cascade that reaches v fails part-way and is rolled back
 //	      tag, mentor, guard like owner; mask additionally 16 = tag, 32 = mentor, 64 = guard
 //	      owner/dep: "~" = nil pointer, otherwise wire string ("-" = empty); boss: wire string
 //	      mask: bit0 owner, bit1 boss, bit2 dep are in the FieldChecker; 8 = nil checker (all fields)
+//	      a mask may be written <m>/<k>/<y>: m lists the fields by their caller-side names (what selects a field),
+//	      k additionally puts the STORED KEYS, y the SYMBOL NAMES of those fields into the MapFieldChecker (they select
+//	      the field only where the naming makes them coincide with the caller-side name)
 //
 // Output line: one token per transaction
 //
@@ -51,6 +63,7 @@ import (
 	"bufio"
 	"context"
 	"encoding/hex"
+	"errors"
 	"fmt"
 	"os"
 	"path/filepath"
@@ -89,6 +102,37 @@ func (e *c04B) GetId() string         { return e.Id }
 func (e *c04B) SetId(id string)       { e.Id = id }
 func (e *c04B) GetEntityType() string { return c04TypeB }
 
+// c04Naming: the three names of an fk field under naming variant nv (see the header)
+type c04Naming int
+
+func (nv c04Naming) key(f string) string {
+	if nv == 0 {
+		return f
+	}
+	return f + "Id"
+}
+
+func (nv c04Naming) chk(f string) string {
+	switch nv {
+	case 1:
+		return f + "Id"
+	case 3:
+		return f + "Ref"
+	}
+	return f
+}
+
+// overrides: the WithFieldOverrides map of a strategy for its fk fields (stored key -> caller-side name)
+func (nv c04Naming) overrides(fields ...string) map[string]string {
+	m := map[string]string{}
+	for _, f := range fields {
+		if nv.key(f) != nv.chk(f) {
+			m[nv.key(f)] = nv.chk(f)
+		}
+	}
+	return m
+}
+
 // c04C: entity of the plain child store of A
 type c04C struct {
 	c04A
@@ -97,35 +141,44 @@ type c04C struct {
 	Guard  *string
 }
 
-type c04CStrategy struct{ parent *boltz.BaseStore[*c04A] }
+type c04CStrategy struct {
+	parent *boltz.BaseStore[*c04A]
+	nv     c04Naming
+}
 
 func (s *c04CStrategy) NewEntity() *c04C { return &c04C{} }
 func (s *c04CStrategy) FillEntity(e *c04C, b *boltz.TypedBucket) {
 	_, err := s.parent.LoadEntity(b.Tx(), e.Id, &e.c04A)
 	b.SetError(err)
 	e.Tag = b.GetString("tag")
-	e.Mentor = b.GetString("mentor")
-	e.Guard = b.GetString("guard")
+	e.Mentor = b.GetString(s.nv.key("mentor"))
+	e.Guard = b.GetString(s.nv.key("guard"))
 }
 func (s *c04CStrategy) PersistEntity(e *c04C, ctx *boltz.PersistContext) {
 	s.parent.GetEntityStrategy().PersistEntity(&e.c04A, ctx.GetParentContext())
+	if ov := s.nv.overrides("mentor", "guard"); len(ov) > 0 {
+		ctx.WithFieldOverrides(ov)
+	}
 	ctx.SetStringP("tag", e.Tag)
-	ctx.SetStringP("mentor", e.Mentor)
-	ctx.SetStringP("guard", e.Guard)
+	ctx.SetStringP(s.nv.key("mentor"), e.Mentor)
+	ctx.SetStringP(s.nv.key("guard"), e.Guard)
 }
 
-type c04AStrategy struct{}
+type c04AStrategy struct{ nv c04Naming }
 
 func (c04AStrategy) NewEntity() *c04A { return &c04A{} }
-func (c04AStrategy) FillEntity(e *c04A, b *boltz.TypedBucket) {
-	e.Owner = b.GetString("owner")
-	e.Boss = b.GetStringWithDefault("boss", "")
-	e.Dep = b.GetString("dep")
+func (s c04AStrategy) FillEntity(e *c04A, b *boltz.TypedBucket) {
+	e.Owner = b.GetString(s.nv.key("owner"))
+	e.Boss = b.GetStringWithDefault(s.nv.key("boss"), "")
+	e.Dep = b.GetString(s.nv.key("dep"))
 }
-func (c04AStrategy) PersistEntity(e *c04A, ctx *boltz.PersistContext) {
-	ctx.SetStringP("owner", e.Owner)
-	ctx.SetString("boss", e.Boss)
-	ctx.SetStringP("dep", e.Dep)
+func (s c04AStrategy) PersistEntity(e *c04A, ctx *boltz.PersistContext) {
+	if ov := s.nv.overrides("owner", "boss", "dep"); len(ov) > 0 {
+		ctx.WithFieldOverrides(ov)
+	}
+	ctx.SetStringP(s.nv.key("owner"), e.Owner)
+	ctx.SetString(s.nv.key("boss"), e.Boss)
+	ctx.SetStringP(s.nv.key("dep"), e.Dep)
 }
 
 type c04BStrategy struct{}
@@ -139,6 +192,7 @@ type c04BStore struct{ *boltz.BaseStore[*c04B] }
 type c04CStore struct{ *boltz.BaseStore[*c04C] }
 
 type c04Stores struct {
+	nv c04Naming
 	a *c04AStore
 	b *c04BStore
 	c *c04CStore
@@ -153,9 +207,10 @@ func (st *c04Stores) child(second bool) *c04CStore {
 }
 
 func c04NewStores(variant int) *c04Stores {
+	nv := c04Naming((variant >> 8) & 3)
 	a := &c04AStore{BaseStore: boltz.NewBaseStore(boltz.StoreDefinition[*c04A]{
 		EntityType:      c04TypeA,
-		EntityStrategy:  c04AStrategy{},
+		EntityStrategy:  c04AStrategy{nv: nv},
 		BasePath:        []string{"u"},
 		EntityNotFoundF: func(id string) error { return boltz.NewNotFoundError(c04TypeA, "id", id) },
 	})}
@@ -170,9 +225,9 @@ func c04NewStores(variant int) *c04Stores {
 
 	a.AddIdSymbol("id", ast.NodeTypeString)
 	b.AddIdSymbol("id", ast.NodeTypeString)
-	owner := a.AddFkSymbol("owner", b)
-	boss := a.AddFkSymbol("boss", a)
-	dep := a.AddFkSymbol("dep", b)
+	owner := a.AddFkSymbolWithKey("owner", nv.key("owner"), b)
+	boss := a.AddFkSymbolWithKey("boss", nv.key("boss"), a)
+	dep := a.AddFkSymbolWithKey("dep", nv.key("dep"), b)
 	things := b.AddFkSetSymbol("things", a)
 	minions := a.AddFkSetSymbol("minions", a)
 
@@ -193,7 +248,7 @@ func c04NewStores(variant int) *c04Stores {
 	// the two plain sibling child stores of A: their data lives in <entity bucket>/ext1, /ext2
 	newChild := func(path string) *c04CStore {
 		c := &c04CStore{BaseStore: boltz.NewBaseStore(boltz.StoreDefinition[*c04C]{
-			EntityStrategy: &c04CStrategy{parent: a.BaseStore},
+			EntityStrategy: &c04CStrategy{parent: a.BaseStore, nv: nv},
 			BasePath:       []string{path},
 			Parent:         a,
 			ParentMapper: func(e boltz.Entity) boltz.Entity {
@@ -212,8 +267,8 @@ func c04NewStores(variant int) *c04Stores {
 	c, c2 := newChild("ext1"), newChild("ext2")
 	// fks DECLARED BY the child stores (B's delete constraints for them come after A's, C's before C2's)
 	declare := func(ch *c04CStore, setName string, idx, fk bool) {
-		mentor := ch.AddFkSymbol("mentor", b)
-		guard := ch.AddFkSymbol("guard", b)
+		mentor := ch.AddFkSymbolWithKey("mentor", nv.key("mentor"), b)
+		guard := ch.AddFkSymbolWithKey("guard", nv.key("guard"), b)
 		mentees := b.AddFkSetSymbol(setName, ch)
 		if idx {
 			ch.AddNullableFkIndex(mentor, mentees)
@@ -245,8 +300,30 @@ func c04NewStores(variant int) *c04Stores {
 		register(c)
 		register(c2)
 	}
-	return &c04Stores{a: a, b: b, c: c, c2: c2}
+	a.AddEntityConstraint(c04VetoConstraint{})
+	return &c04Stores{nv: nv, a: a, b: b, c: c, c2: c2}
 }
+
+// c04Protected: the A entity whose delete the entity constraint below refuses during the current operation
+var c04Protected struct {
+	on bool
+	id string
+}
+
+type c04VetoError struct{ id string }
+
+func (e c04VetoError) Error() string { return "veto: " + e.id + " is protected" }
+
+type c04VetoConstraint struct{}
+
+func (c04VetoConstraint) ProcessPreCommit(state *boltz.EntityChangeState[*c04A]) error {
+	if state.ChangeType == boltz.EntityDeleted && c04Protected.on && state.EntityId == c04Protected.id {
+		return c04VetoError{id: state.EntityId}
+	}
+	return nil
+}
+
+func (c04VetoConstraint) ProcessPostCommit(*boltz.EntityChangeState[*c04A]) {}
 
 var c04StoreCache = map[int]*c04Stores{}
 
@@ -313,6 +390,8 @@ func c04ErrEnum(err error) string {
 		return "notfound"
 	case boltz.IsReferenceExistsError(err):
 		return "refexists"
+	case errors.As(err, &c04VetoError{}):
+		return "veto"
 	case strings.Contains(err.Error(), "does not allow null or empty values"):
 		return "null-not-allowed"
 	}
@@ -327,24 +406,48 @@ func c04OptStr(w string) *string {
 	return &s
 }
 
-type c04Checker struct{ mask int }
+// c04Checker: a MapFieldChecker-like set of field names
+type c04Checker struct{ names map[string]bool }
 
-func (c c04Checker) IsUpdated(f string) bool {
-	switch f {
-	case "owner":
-		return c.mask&1 != 0
-	case "boss":
-		return c.mask&2 != 0
-	case "dep":
-		return c.mask&4 != 0
-	case "tag":
-		return c.mask&16 != 0
-	case "mentor":
-		return c.mask&32 != 0
-	case "guard":
-		return c.mask&64 != 0
+func (c c04Checker) IsUpdated(f string) bool { return c.names[f] }
+
+var c04MaskBits = []struct {
+	bit  int
+	name string
+}{{1, "owner"}, {2, "boss"}, {4, "dep"}, {16, "tag"}, {32, "mentor"}, {64, "guard"}}
+
+// c04ParseChecker: "<m>" or "<m>/<k>/<y>" -> nil (bit 8 of m) or the checker holding the caller-side names of the
+// fields in m, the stored keys of those in k and the symbol names of those in y
+func c04ParseChecker(nv c04Naming, w string) boltz.FieldChecker {
+	parts := strings.Split(w, "/")
+	m, _ := strconv.Atoi(parts[0])
+	if m&8 != 0 {
+		return nil
 	}
-	return false
+	k, y := 0, 0
+	if len(parts) == 3 {
+		k, _ = strconv.Atoi(parts[1])
+		y, _ = strconv.Atoi(parts[2])
+	}
+	names := map[string]bool{}
+	for _, mb := range c04MaskBits {
+		if mb.name == "tag" {
+			if (m|k|y)&mb.bit != 0 {
+				names["tag"] = true
+			}
+			continue
+		}
+		if m&mb.bit != 0 {
+			names[nv.chk(mb.name)] = true
+		}
+		if k&mb.bit != 0 {
+			names[nv.key(mb.name)] = true
+		}
+		if y&mb.bit != 0 {
+			names[mb.name] = true
+		}
+	}
+	return c04Checker{names: names}
 }
 
 func c04Apply(st *c04Stores, ctx boltz.MutateContext, op string) error {
@@ -355,10 +458,9 @@ func c04Apply(st *c04Stores, ctx boltz.MutateContext, op string) error {
 	case "ca":
 		return st.a.Create(ctx, &c04A{Id: fromWire(f[1]), Owner: c04OptStr(f[2]), Boss: fromWire(f[3]), Dep: c04OptStr(f[4])})
 	case "ua":
-		mask, _ := strconv.Atoi(f[2])
-		var checker boltz.FieldChecker
-		if mask < 8 {
-			checker = c04Checker{mask: mask}
+		checker := c04ParseChecker(st.nv, f[2])
+		if m, _ := strconv.Atoi(strings.Split(f[2], "/")[0]); m >= 8 {
+			checker = nil // "ua": any mask >= 8 is the nil checker
 		}
 		return st.a.Update(ctx, &c04A{Id: fromWire(f[1]), Owner: c04OptStr(f[3]), Boss: fromWire(f[4]), Dep: c04OptStr(f[5])}, checker)
 	case "cc", "c2":
@@ -369,11 +471,7 @@ func c04Apply(st *c04Stores, ctx boltz.MutateContext, op string) error {
 		}
 		return st.child(f[0] == "c2").Create(ctx, e)
 	case "uc", "u2":
-		mask, _ := strconv.Atoi(f[2])
-		var checker boltz.FieldChecker
-		if mask&8 == 0 {
-			checker = c04Checker{mask: mask}
-		}
+		checker := c04ParseChecker(st.nv, f[2])
 		e := &c04C{c04A: c04A{Id: fromWire(f[1]), Owner: c04OptStr(f[3]), Boss: fromWire(f[4]), Dep: c04OptStr(f[5])},
 			Tag: c04OptStr(f[6])}
 		if len(f) >= 9 {
@@ -382,6 +480,13 @@ func c04Apply(st *c04Stores, ctx boltz.MutateContext, op string) error {
 		return st.child(f[0] == "u2").Update(ctx, e, checker)
 	case "dc", "d2":
 		return st.child(f[0] == "d2").DeleteById(ctx, fromWire(f[1]))
+	case "xa", "xb":
+		c04Protected.on, c04Protected.id = true, fromWire(f[2])
+		defer func() { c04Protected.on = false }()
+		if f[0] == "xa" {
+			return st.a.DeleteById(ctx, fromWire(f[1]))
+		}
+		return st.b.DeleteById(ctx, fromWire(f[1]))
 	case "da":
 		return st.a.DeleteById(ctx, fromWire(f[1]))
 	case "db":
@@ -391,7 +496,61 @@ func c04Apply(st *c04Stores, ctx boltz.MutateContext, op string) error {
 }
 
 // runs one transaction; returns the result token
-func c04RunTx(db *bbolt.DB, st *c04Stores, tx string) (res string) {
+// c04Runner: how a history's transactions are run and observed
+type c04Runner struct {
+	update func(fn func(ctx boltz.MutateContext) error) error
+	view   func(fn func(btx *bbolt.Tx) error) error
+	// housekeeping with a context of its own
+	fresh func(fn func(ctx boltz.MutateContext) error) error
+}
+
+// fresh MutateContext per transaction, directly on bbolt
+func c04DirectRunner(db *bbolt.DB) *c04Runner {
+	upd := func(fn func(ctx boltz.MutateContext) error) error {
+		return db.Update(func(btx *bbolt.Tx) error {
+			return fn(boltz.NewTxMutateContext(context.Background(), btx))
+		})
+	}
+	return &c04Runner{update: upd, view: db.View, fresh: upd}
+}
+
+var c04BoltzDb *boltz.DbImpl
+
+func c04OpenBoltzDb() *boltz.DbImpl {
+	if c04BoltzDb != nil {
+		return c04BoltzDb
+	}
+	base := ""
+	if fi, err := os.Stat("/dev/shm"); err == nil && fi.IsDir() {
+		base = "/dev/shm" // boltz.Open syncs every commit: keep the file in memory
+	}
+	dir, err := os.MkdirTemp(base, "verif-*")
+	if err != nil {
+		dir, err = os.MkdirTemp("", "verif-*")
+		if err != nil {
+			panic(err)
+		}
+	}
+	db, err := boltz.Open(filepath.Join(dir, "c04k.db"), "u")
+	if err != nil {
+		panic(err)
+	}
+	c04BoltzDb = db
+	_ = os.RemoveAll(dir)
+	return db
+}
+
+// ONE MutateContext object for every Db.Update of the history
+func c04ReuseRunner(db *boltz.DbImpl) *c04Runner {
+	shared := boltz.NewMutateContext(context.Background())
+	return &c04Runner{
+		update: func(fn func(ctx boltz.MutateContext) error) error { return db.Update(shared, fn) },
+		view:   db.View,
+		fresh:  func(fn func(ctx boltz.MutateContext) error) error { return db.Update(nil, fn) },
+	}
+}
+
+func c04RunTx(rn *c04Runner, st *c04Stores, tx string) (res string) {
 	ops := strings.Split(tx, ",")
 	failed := -1
 	defer func() {
@@ -403,8 +562,7 @@ func c04RunTx(db *bbolt.DB, st *c04Stores, tx string) (res string) {
 			panic(r)
 		}
 	}()
-	err := db.Update(func(btx *bbolt.Tx) error {
-		base := boltz.NewTxMutateContext(context.Background(), btx)
+	err := rn.update(func(base boltz.MutateContext) error {
 		for i, op := range ops {
 			failed = i
 			if err := c04Apply(st, &c04Guard{MutateContext: base}, op); err != nil {
@@ -461,8 +619,8 @@ func c04FV(p *string) string {
 }
 
 // observation texts after a transaction
-func c04Observe(db *bbolt.DB, st *c04Stores) (fine, coarse string, nA, nB int) {
-	_ = db.View(func(btx *bbolt.Tx) error {
+func c04Observe(rn *c04Runner, st *c04Stores) (fine, coarse string, nA, nB int) {
+	_ = rn.view(func(btx *bbolt.Tx) error {
 		v := &c04Visitor{}
 		boltz.Traverse(btx, "", v)
 		var lines []string
@@ -487,7 +645,7 @@ func c04Observe(db *bbolt.DB, st *c04Stores) (fine, coarse string, nA, nB int) {
 			}
 			boss := "~"
 			if bk := st.a.GetEntityBucket(btx, []byte(id)); bk != nil {
-				boss = c04FV(bk.GetString("boss"))
+				boss = c04FV(bk.GetString(st.nv.key("boss")))
 			}
 			extOf := func(ch *c04CStore) string {
 				ext := "!"
@@ -529,20 +687,26 @@ func c04Fnv(s string) string {
 
 func c04Exec(line string) string {
 	f := fields(line)
-	if len(f) < 2 || (f[0] != "h" && f[0] != "v") {
+	if len(f) < 2 || (f[0] != "h" && f[0] != "v" && f[0] != "k" && f[0] != "w") {
 		return "bad-case"
 	}
-	verbose := f[0] == "v"
+	verbose := f[0] == "v" || f[0] == "w"
+	reuse := f[0] == "k" || f[0] == "w"
 	variant, err := strconv.Atoi(f[1])
-	if err != nil || variant < 0 || variant > 255 {
+	if err != nil || variant < 0 || variant > 1023 {
 		return "bad-case"
 	}
-	db := c04OpenDb()
+	var rn *c04Runner
+	if reuse {
+		rn = c04ReuseRunner(c04OpenBoltzDb())
+	} else {
+		rn = c04DirectRunner(c04OpenDb())
+	}
 	st := c04GetStores(variant)
-	// fresh database content for every history
-	_ = db.Update(func(btx *bbolt.Tx) error {
-		if btx.Bucket([]byte("u")) != nil {
-			return btx.DeleteBucket([]byte("u"))
+	// fresh database content for every history (with a context of its own)
+	_ = rn.fresh(func(ctx boltz.MutateContext) error {
+		if ctx.Tx().Bucket([]byte("u")) != nil {
+			return ctx.Tx().DeleteBucket([]byte("u"))
 		}
 		return nil
 	})
@@ -551,8 +715,8 @@ func c04Exec(line string) string {
 		if tx == "" {
 			continue
 		}
-		res := c04RunTx(db, st, tx)
-		fine, coarse, nA, nB := c04Observe(db, st)
+		res := c04RunTx(rn, st, tx)
+		fine, coarse, nA, nB := c04Observe(rn, st)
 		cnt := fmt.Sprintf("@%d,%d", nA, nB)
 		if verbose {
 			out = append(out, res+"#{"+strings.ReplaceAll(fine, "\n", "|")+"}#{"+strings.ReplaceAll(coarse, "\n", "|")+"}"+cnt)
@@ -719,6 +883,8 @@ func (sh *c04Shadow) deleteA(id string) {
 type c04GenCtx struct {
 	r       *rng
 	variant int
+	// the A entity whose delete last failed part-way (a protected referrer): what it refers to is deleted next
+	lastVetoed string
 	aPool   []string
 	bPool   []string
 	sh      *c04Shadow
@@ -774,6 +940,59 @@ func (g *c04GenCtx) fkOk(id, owner string, ownerNil bool, boss, dep string, depN
 	_, bossOk := sh.boss[boss]
 	return (bossOk || boss == id) && boss != "" && (ownerNil || owner == "" || sh.b[owner]) &&
 		(((depNil || dep == "") && depNullable) || (!depNil && dep != "" && sh.b[dep]))
+}
+
+// nameMask: how the caller's checker lists the fields of `mask` — by caller-side name, by stored key, by symbol name
+// (any subset of the three per field).  Returns the checker word and the mask of the fields that end up SELECTED under
+// the history's naming (what the shadow works with).
+func (g *c04GenCtx) nameMask(mask int) (string, int) {
+	r := g.r
+	nv := (g.variant >> 8) & 3
+	if mask&8 != 0 || !r.chance(1, 2) {
+		return strconv.Itoa(mask), mask
+	}
+	m, k, y, eff := mask&(8|16), 0, 0, mask&(8|16)
+	for _, b := range []int{1, 2, 4, 32, 64} {
+		if mask&b == 0 {
+			// now and then a field is listed only under a name that is not its caller-side name
+			if r.chance(1, 6) {
+				if r.chance(1, 2) {
+					k |= b
+				} else {
+					y |= b
+				}
+			} else {
+				continue
+			}
+		} else {
+			switch r.intn(4) {
+			case 0:
+				m |= b
+			case 1:
+				k |= b
+			case 2:
+				y |= b
+			default:
+				m |= b
+				k |= b
+				y |= b
+			}
+		}
+		c, kk, yy := m&b != 0, k&b != 0, y&b != 0
+		sel := c
+		switch nv {
+		case 0:
+			sel = c || kk || yy
+		case 1:
+			sel = c || kk
+		case 2:
+			sel = c || yy
+		}
+		if sel {
+			eff |= b
+		}
+	}
+	return fmt.Sprintf("%d/%d/%d", m, k, y), eff
 }
 
 // declared: does child store ci (0 = C, 1 = C2) declare the mentor index / the guard constraint
@@ -912,7 +1131,7 @@ func (g *c04GenCtx) genChildUpdate() (string, bool) {
 	if ex := c04BKeys(has); len(ex) > 0 && r.chance(5, 6) {
 		id = pick(r, ex)
 	}
-	mask := pick(r, []int{1, 2, 2, 4, 16, 17, 18, 3, 6, 7, 23, 8, 24, 0, 32, 32, 64, 96, 34, 33, 100, 48})
+	maskWord, mask := g.nameMask(pick(r, []int{1, 2, 2, 4, 16, 17, 18, 3, 6, 7, 23, 8, 24, 0, 32, 32, 64, 96, 34, 33, 100, 48}))
 	owner, ownerNil := g.pickB(true)
 	dep, depNil := g.pickB(depNullable || r.chance(1, 8))
 	boss := g.pickBoss(id, id)
@@ -980,7 +1199,7 @@ func (g *c04GenCtx) genChildUpdate() (string, bool) {
 	if second {
 		verb = "u2:"
 	}
-	return verb + toWire(id) + ":" + strconv.Itoa(mask) + ":" + c04Opt(owner, ownerNil) + ":" + toWire(boss) + ":" + c04Opt(dep, depNil) + ":" + c04Opt(tag, tagNil) +
+	return verb + toWire(id) + ":" + maskWord + ":" + c04Opt(owner, ownerNil) + ":" + toWire(boss) + ":" + c04Opt(dep, depNil) + ":" + c04Opt(tag, tagNil) +
 		":" + c04Opt(m, mNil) + ":" + c04Opt(gd, gNil), ok
 }
 
@@ -1035,7 +1254,7 @@ func (g *c04GenCtx) genOp() (string, bool) {
 		if r.chance(1, 15) {
 			id = pick(r, g.aPool)
 		}
-		mask := pick(r, []int{1, 1, 2, 2, 2, 4, 3, 5, 6, 7, 8, 0})
+		maskWord, mask := g.nameMask(pick(r, []int{1, 1, 2, 2, 2, 4, 3, 5, 6, 7, 8, 0}))
 		owner, ownerNil := g.pickB(true)
 		dep, depNil := g.pickB(depNullable || r.chance(1, 8))
 		boss := g.pickBoss(id, id)
@@ -1071,7 +1290,7 @@ func (g *c04GenCtx) genOp() (string, bool) {
 				sh.boss[id], sh.owner[id], sh.dep[id] = nb, no, nd
 			}
 		}
-		return "ua:" + toWire(id) + ":" + strconv.Itoa(mask) + ":" + c04Opt(owner, ownerNil) + ":" + toWire(boss) + ":" + c04Opt(dep, depNil), ok
+		return "ua:" + toWire(id) + ":" + maskWord + ":" + c04Opt(owner, ownerNil) + ":" + toWire(boss) + ":" + c04Opt(dep, depNil), ok
 	case x < 90:
 		id := pick(r, aEx)
 		switch {
@@ -1108,7 +1327,33 @@ func (g *c04GenCtx) genOp() (string, bool) {
 				}
 			}
 		}
+		if g.lastVetoed != "" && r.chance(2, 3) {
+			// after a cascade that failed part-way at T: delete what T refers to — its cascade has to go through T
+			if b, okb := sh.boss[g.lastVetoed]; okb && b != g.lastVetoed {
+				id = b
+			}
+			g.lastVetoed = ""
+		}
 		_, ok := sh.boss[id]
+		if ok && r.chance(1, 5) {
+			// the caller's entity constraint protects a (transitive) referrer: the cascade fails part-way
+			var sub []string
+			for _, k := range aEx {
+				if k != id && sh.inSubtree(id, k) {
+					sub = append(sub, k)
+				}
+			}
+			v := pick(r, aEx)
+			if len(sub) > 0 && r.chance(4, 5) {
+				v = pick(r, sub)
+			}
+			if v == id || sh.inSubtree(id, v) {
+				g.lastVetoed = id
+				return "xa:" + toWire(id) + ":" + toWire(v), false
+			}
+			sh.deleteA(id)
+			return "xa:" + toWire(id) + ":" + toWire(v), true
+		}
 		sh.deleteA(id)
 		verb := "da:"
 		if r.chance(1, 4) {
@@ -1169,6 +1414,18 @@ func (g *c04GenCtx) genOp() (string, bool) {
 					}
 				}
 			}
+			if ok && len(deps) > 0 && r.chance(1, 4) {
+				// a B delete whose dep cascade meets a protected entity
+				v := pick(r, deps)
+				for _, k := range aEx {
+					if sh.inSubtree(v, k) && r.chance(1, 2) {
+						v = k
+						break
+					}
+				}
+				g.lastVetoed = pick(r, deps)
+				return "xb:" + toWire(id) + ":" + toWire(v), false
+			}
 			if ok {
 				for _, k := range deps {
 					sh.deleteA(k)
@@ -1186,6 +1443,10 @@ func c04GenHistory(r *rng, out *bufio.Writer, hostile bool) {
 		// which child store declares the mentor index / the guard constraint, and the registration order of the two
 		g.variant |= r.intn(32) << 3
 	}
+	if r.chance(1, 2) {
+		// naming of the fk fields: symbol name / stored key / caller-side name
+		g.variant |= (1 + r.intn(3)) << 8
+	}
 	pool := c04Pool
 	if !hostile {
 		pool = []string{"a", "b", "c", "d", "e", "f", "g"}
@@ -1202,7 +1463,11 @@ func c04GenHistory(r *rng, out *bufio.Writer, hostile bool) {
 		g.bPool[0] = g.aPool[r.intn(len(g.aPool))]
 	}
 	ntx := 6 + r.intn(26)
-	fmt.Fprintf(out, "h %d", g.variant)
+	kind := "h"
+	if r.chance(2, 5) {
+		kind = "k" // one MutateContext object for all transactions of the history
+	}
+	fmt.Fprintf(out, "%s %d", kind, g.variant)
 	for t := 0; t < ntx; t++ {
 		nops := 1
 		if r.chance(1, 4) {
@@ -1335,10 +1600,83 @@ func c04GenChildFkScripts(out *bufio.Writer) {
 	}
 }
 
+// scripted families for the naming variants: patch updates that list an fk field by its caller-side name, by its
+// stored key, by its symbol name; the written reference must be checked and indexed exactly when the field is selected
+func c04GenNamingScripts(out *bufio.Writer) {
+	w := toWire
+	for nv := 1; nv <= 3; nv++ {
+		for _, lo := range []int{0, 5} {
+			for _, hi := range []int{0, 31} {
+				v := nv<<8 | hi<<3 | lo
+				for i := (nv + lo + hi) % 9; i < len(c04Pool); i += 9 {
+					x := c04Pool[i]
+					y := c04Pool[(i+5)%len(c04Pool)]
+					z := c04Pool[(i+9)%len(c04Pool)] // never created: a missing target
+					r, k := "r", "k"
+					if x == r || y == r || z == r {
+						r = "root"
+					}
+					if x == k || y == k || z == k {
+						k = "keep"
+					}
+					pre := fmt.Sprintf("h %d cb:%s cb:%s ca:%s:~:%s:%s ca:%s:~:%s:%s", v, w(k), w(y), w(r), w(r), w(k), w(x), w(r), w(k))
+					for _, how := range []string{"%d/0/0", "0/%d/0", "0/0/%d", "%[1]d/%[1]d/%[1]d"} {
+						sel := func(b int) string { return fmt.Sprintf(how, b) }
+						// owner := y (then y must be refused), owner := missing z, owner cleared, y deleted
+						fmt.Fprintf(out, "%s ua:%s:%s:%s:%s:~ db:%s ua:%s:%s:%s:%s:~ ua:%s:%s:~:%s:~ db:%s\n",
+							pre, w(x), sel(1), w(y), w(r), w(y), w(x), sel(1), w(z), w(r), w(x), sel(1), w(r), w(y))
+						// boss := x (self) / missing z / null; dep := missing z / y; then the cascade from r and y
+						fmt.Fprintf(out, "%s ua:%s:%s:~:%s:~ ua:%s:%s:~:%s:~ ua:%s:%s:~::~ ua:%s:%s:~:%s:%s ua:%s:%s:~:%s:%s da:%s db:%s\n",
+							pre, w(x), sel(2), w(x), w(x), sel(2), w(z), w(x), sel(2), w(x), sel(4), w(r), w(z), w(x), sel(4), w(r), w(y), w(r), w(y))
+						// through the child stores: mentor / guard := y, missing z, cleared
+						fmt.Fprintf(out, "%s cc:%s:~:%s:%s:74:~:~ c2:%s:~:%s:%s:~:~:~ uc:%s:%s:~:%s:~:~:%s:~ u2:%s:%s:~:%s:~:~:~:%s db:%s uc:%s:%s:~:%s:~:~:%s:~ u2:%s:%s:~:%s:~:~:~:%s uc:%s:%s:~:%s:~:~:~:~ u2:%s:%s:~:%s:~:~:~:~ db:%s\n",
+							pre, w(x), w(r), w(k), w(x), w(r), w(k), w(x), sel(32), w(r), w(y), w(x), sel(64), w(r), w(y), w(y),
+							w(x), sel(32), w(r), w(z), w(x), sel(64), w(r), w(z), w(x), sel(32), w(r), w(x), sel(64), w(r), w(y))
+					}
+				}
+			}
+		}
+	}
+}
+
+// scripted families for cascades that FAIL part-way (a protected transitive referrer) and what they leave behind in
+// the mutate context: chain r <- m <- t <- x (<- y); the delete of t (or of the B entity t depends on) is vetoed at x,
+// then m (which t refers to) is deleted: its cascade must go through t, x, y.  Run with a fresh context per transaction
+// (h) and with ONE context object for the whole history (k).
+func c04GenVetoScripts(out *bufio.Writer) {
+	w := toWire
+	for _, kind := range []string{"h", "k"} {
+		for v := 0; v < 8; v++ {
+			for i := v % 3; i < len(c04Pool); i += 3 {
+				t := c04Pool[i]
+				x := c04Pool[(i+5)%len(c04Pool)]
+				y := c04Pool[(i+9)%len(c04Pool)]
+				r, m, k, d := "r", "m", "k", "d"
+				for _, n := range []*string{&r, &m, &k, &d} {
+					if *n == t || *n == x || *n == y {
+						*n = *n + *n + "2"
+					}
+				}
+				pre := fmt.Sprintf("%s %d cb:%s cb:%s ca:%s:~:%s:%s ca:%s:~:%s:%s ca:%s:~:%s:%s ca:%s:~:%s:%s ca:%s:~:%s:%s",
+					kind, v, w(k), w(d), w(r), w(r), w(k), w(m), w(r), w(k), w(t), w(m), w(d), w(x), w(t), w(k), w(y), w(x), w(k))
+				// vetoed at a transitive referrer, at the entity itself, not at all; then the boss
+				fmt.Fprintf(out, "%s xa:%s:%s xa:%s:%s da:%s\n", pre, w(t), w(y), w(t), w(t), w(m))
+				fmt.Fprintf(out, "%s xa:%s:%s,da:%s xa:%s:%s dc:%s\n", pre, w(t), w(x), w(m), w(x), w(m), w(m))
+				// a B delete whose dep cascade (cascade variants) is vetoed, then the delete of m, then the B delete again
+				fmt.Fprintf(out, "%s xb:%s:%s da:%s xb:%s:%s db:%s\n", pre, w(d), w(x), w(m), w(d), w(r), w(d))
+				// a cycle t <-> m made by re-parenting, vetoed at the other member, then deleted from the other side
+				fmt.Fprintf(out, "%s ua:%s:2:~:%s:~ xa:%s:%s xa:%s:%s da:%s\n", pre, w(m), w(t), w(t), w(m), w(m), w(y), w(m))
+			}
+		}
+	}
+}
+
 func c04Gen(tier string, seed uint64, out *bufio.Writer) {
 	r := newRng(seed)
 	c04GenScripts(out)
 	c04GenChildFkScripts(out)
+	c04GenNamingScripts(out)
+	c04GenVetoScripts(out)
 	n := 1500
 	if tier == "thorough" {
 		n = 50000
